@@ -73,6 +73,21 @@ pub fn step(ctx: &Ctx, w: &World, ev: &mut Ev) {
             }
             if let Op::Liquidate { trader, .. } = op {
                 let t = w.resolve(trader);
+                if t == sender && ctx.out.ok {
+                    // the sender is the liquidator and may receive the liquidator's reward - half the penalty on the
+                    // quote exchanged - but nothing of what the liquidated position leaves
+                    if let (Some(e), Some(v)) = (&ctx.pre.eng, op.vamm_idx()) {
+                        if v < ctx.pre.vamms.len() {
+                            let q = ctx.pre.vamms[v].q.abs_diff(ctx.post.vamms[v].q);
+                            let reward = crate::refmodel::mul_div(q, e.liq_fee, w.d).unwrap_or(U::MAX) / 2;
+                            let got = ctx.inflow(&t);
+                            ev.count("self_liquidation");
+                            if got > reward {
+                                ev.violation("liquidated_gets_nothing", &format!("{},self,more_than_the_reward", coll), json!({"trader": t, "received": got.to_string(), "liquidator_reward": reward.to_string()}));
+                            }
+                        }
+                    }
+                }
                 if t != sender && ctx.out.ok {
                     ev.count("liquidation_by_other");
                     let got = ctx.inflow(&t);
